@@ -52,6 +52,8 @@ def run(tier, seed, prop='C04', p_set=0.45, nops=(1, 30)):
             chk.count('ops', len(ops))
             for op in ops:
                 chk.count('op:' + op[0])
+            if hno % 2 == 1:
+                rejected_batch_law(chk, rng, m, book, cls, ex, ops)
             # real code vs real code: a fresh translation of the edited workbook
             lw = em.last_writes(ops)
             if lw and hno % 2 == 0:
@@ -81,6 +83,50 @@ def run(tier, seed, prop='C04', p_set=0.45, nops=(1, 30)):
                     chk.mismatch('retranslate', {'error': repr(e), 'history': repr(ops)[:500]})
     chk.judge('histories', cases, sample_cap=3)
     return chk.finish()
+
+
+def rejected_batch_law(chk, rng, m, book, cls, ex, ops):
+    """a set-cells call that is REJECTED (a valid cell followed by an address on a sheet that does not exist) either counts as a whole, or up to the rejected
+    cell, or not at all - but whatever it left is visible at once and stays: a later call on an unrelated cell changes no other cell's value"""
+    Cell = m['Cell']
+    coords = [(s, c, r) for s in range(book.ns) for r in range(book.h[s] + 1) for c in range(book.w[s] + 1)]
+    lw = em.last_writes(ops)
+    coords += [t for t in lw if t not in coords]
+
+    def snapshot(e):
+        return [core.outcome(lambda t=t: e.get_cell(Cell(*t)).value) for t in coords]
+    consts = [t for t, v in book.cells.items() if v[0] == 'const'] or coords[:1]
+    t = rng.choice(consts)
+    x = rng.choice([111, 222.5, 'rej'])
+    before = snapshot(ex)
+    bad_first = rng.random() < 0.25
+    batch = [Cell(t[0], t[1], t[2], x), Cell('No such sheet %d' % rng.randint(0, 9), 0, 0, 3)]
+    try:
+        ex.set_cells(batch[::-1] if bad_first else batch)
+        return                      # accepted: nothing to say here
+    except Exception:  # noqa
+        pass
+    chk.count('law:rejected-batch')
+    after = snapshot(ex)
+    ex.set_cells([Cell(0, 40, 40, 7)])
+    later = snapshot(ex)
+    if after != later:
+        i = [k for k in range(len(coords)) if after[k] != later[k]][0]
+        chk.violation({'why': 'after a rejected set-cells call, a later call on an unrelated cell changes the value of another cell (part of the rejected batch was kept '
+                              'hidden and surfaced later)', 'cell': coords[i], 'right_after_the_rejected_call': after[i], 'after_the_unrelated_call': later[i],
+                       'rejected_batch': [(t, x), 'No such sheet'][::-1 if bad_first else 1], 'history': repr(ops)[:1200], 'workbook': repr(book.cells)[:1200],
+                       'stream': 'rejected-batch'})
+        return
+    if after != before:
+        # counted up to the rejected cell: then exactly as if that part had been supplied alone
+        ex3 = realcode.executor_for(cls)
+        for op in ops:
+            if op[0] == 'set':
+                ex3.set_cells([em.mk_cell(Cell, tt, st, v) for tt, v, st in op[1]])
+        ex3.set_cells([Cell(t[0], t[1], t[2], x)])
+        if snapshot(ex3) != after:
+            chk.violation({'why': 'a rejected set-cells call left values that are neither those before the call nor those of the part before the rejected cell',
+                           'rejected_batch': [(t, x), 'No such sheet'], 'history': repr(ops)[:1200], 'workbook': repr(book.cells)[:1200], 'stream': 'rejected-batch'})
 
 
 def replay(path):
